@@ -264,6 +264,50 @@ pub fn histories(cfg: &CfgSpec, tier: &str) -> Vec<Case> {
         "roundtrip2",
         vec![resume(), ok(stake(P::U(1), MintTo::None, vec![])), ok(rewards()), ok(unstake(1)), ok(stake(P::U(0), MintTo::None, vec![])), ok(Op::UnstakeMinted { sender: P::U(0) }), H::Advance(DAY), ok(Op::Submit { sender: P::U(2) })],
     );
+    // fee accrual / payout across treasury changes (C11 quantifier)
+    add(
+        "treasury-changes",
+        vec![
+            resume(),
+            ok(stake(P::U(0), MintTo::None, vec![])),
+            ok(rewards()),
+            ok(Op::SetTreasury { on: false }),
+            ok(rewards()),
+            fails(Op::FeeWithdraw { sender: P::Admin }),
+            ok(Op::SetTreasury { on: true }),
+            ok(rewards()),
+            ok(Op::FeeWithdraw { sender: P::Admin }),
+            ok(Op::SetTreasury { on: false }),
+            ok(rewards()),
+            ok(Op::SetTreasury { on: true }),
+            ok(Op::FeeWithdraw { sender: P::Admin }),
+        ],
+    );
+    // only the channel changes, after both hook accounts have already been used once (stale authentication data must not survive)
+    add(
+        "rechannel",
+        vec![
+            resume(),
+            ok(stake(P::U(0), MintTo::None, vec![])),
+            ok(unstake(0)),
+            H::Advance(DAY),
+            ok(Op::Submit { sender: P::U(1) }),
+            ok(stake(P::U(1), MintTo::None, vec![])),
+            ok(unstake(1)),
+            H::Advance(DAY),
+            ok(Op::Submit { sender: P::U(1) }),
+            ok(rewards()),
+            H::Advance(UNBOND),
+            ok(recv(1)),
+            ok(Op::UpdateConfig { sender: P::Admin, sections: crate::cfgops::S_PROTOCOL | crate::cfgops::S_KEEP_DENOM }),
+            fails(rewards()),
+            fails(recv(2)),
+            fails(Op::Rewards { sender: P::HookStaker3, funds: Funds::Native, faults: vec![] }),
+            ok(Op::Rewards { sender: P::HookCollector3, funds: Funds::Native, faults: vec![] }),
+            fails(Op::ReceiveUnstaked { sender: P::HookCollector3, batch: 2, funds: Funds::Native }),
+            ok(Op::ReceiveUnstaked { sender: P::HookStaker3, batch: 2, funds: Funds::Native }),
+        ],
+    );
     // admin re-bases the totals with LST = 0 < staked: the next stake sweeps stake the contract does not hold
     add("resume-sweep-roundtrip", vec![ok(Op::ResumeStaked { sender: P::Admin }), ok(stake(P::U(0), MintTo::None, vec![])), ok(Op::UnstakeMinted { sender: P::U(0) }), H::Advance(DAY), ok(Op::Submit { sender: P::U(2) })]);
     add("resume-sweep", vec![ok(Op::ResumeStaked { sender: P::Admin }), ok(stake(P::U(0), MintTo::None, vec![])), H::Do(Op::FeeWithdraw { sender: P::Admin }, cfg.treasury)]);
